@@ -251,6 +251,11 @@ def check_mesen(text, syms, banks):
         parts = g.split(":")
         if len(parts) != 3 or parts[0] != k or parts[2] != name:
             raise Bad("line %r, expected %s:%x:%s" % (g, k, val & ((1 << 64) - 1), name))
+        if k == "R" and val < 0:
+            # a label in a bank without output keeps its (negative) address, printed as a signed hex number
+            if parts[1] != "-%x" % -val:
+                raise Bad("line %r: address %s, expected -%x" % (g, parts[1], -val))
+            continue
         if val < 0:
             raise Bad("label %s lies at file offset %d (< 16): no PRG offset exists, listed as %s" % (name, val + 16, parts[1]))
         if int(parts[1], 16) != val:
